@@ -124,6 +124,19 @@ class _Canon(ast.NodeTransformer):
             n.left = ast.BinOp(left=n.left.left, op=ast.Add(), right=ast.Constant(value=k % m))
         return n
 
+    def visit_Compare(self, n):
+        self.generic_visit(n)
+        # N9: an identity / equality test between two literals has one answer (`None is None` after a helper's `return None`
+        # was bound to the caller's variable)
+        if len(n.ops) == 1 and isinstance(n.left, ast.Constant) and isinstance(n.comparators[0], ast.Constant):
+            a, b, op = n.left.value, n.comparators[0].value, n.ops[0]
+            if a is None or b is None or type(a) is type(b):
+                if isinstance(op, (ast.Is, ast.Eq)):
+                    return ast.copy_location(ast.Constant(value=(a is b) if (a is None or b is None) else (a == b)), n)
+                if isinstance(op, (ast.IsNot, ast.NotEq)):
+                    return ast.copy_location(ast.Constant(value=not ((a is b) if (a is None or b is None) else (a == b))), n)
+        return n
+
     def visit_IfExp(self, n):
         self.generic_visit(n)
         if isinstance(n.orelse, ast.Constant) and n.orelse.value is False:
